@@ -55,6 +55,10 @@ def step (s : St) (op : String) : St × Option String :=
     let kv := kvs rest
     let r := deleteLabel s (dec kv "r") (dec kv "n")
     (r.1, some (showOut r.2 ++ " frame=ok"))
+  | "delb" :: rest =>
+    let kv := kvs rest
+    let r := deleteBundle s (dec kv "r") (strOf ((kvGet kv "b").getD ""))
+    (r.1, some (showOut r.2))
   | "get" :: rest =>
     let kv := kvs rest
     (s, some (showOut (getLabel s (dec kv "r") (dec kv "n"))))
